@@ -308,9 +308,9 @@ def case_flat(ctx, i, rng):
         ctx.sample(dict(w, result=short(cfg, 400)))
 
 
-def _with_environ(env, fn, *a, **k):
-    old = {key: os.environ.get(key) for key in env}
-    os.environ.update(env)
+def _with_environ(environ, fn, *a, **k):
+    old = {key: os.environ.get(key) for key in environ}
+    os.environ.update(environ)
     try:
         return call(fn, *a, **k)
     finally:
